@@ -25,8 +25,8 @@ type TunCfg struct {
 	OpenMD     metadata.MD
 	// OpenInMD: the context that opens the tunnel also carries this (unrelated) INCOMING
 	// metadata, as it does when a tunnel is opened from inside a request handler.
-	OpenInMD metadata.MD
-	WithBreak  bool
+	OpenInMD  metadata.MD
+	WithBreak bool
 	// OpenTimeout puts a deadline on the context that opens the tunnel.
 	OpenTimeout time.Duration
 	Label       string
